@@ -391,13 +391,12 @@ func (e *Executor) executeTarget(
 	}
 
 	if isTainted {
-		go func() {
-			verifhook.Point("taint.clear", target.Label.String())
-			err = e.taintCache.Clear(ctx, target.Label)
-			if err != nil {
-				logger.Errorf("Failed to remove taint from target %s: %v", target.Label, err)
-			}
-		}()
+		// Remove the taint before reporting the target as done: a goroutine nobody waits for can
+		// lose against the exit of the process, and the target would run again in the next build
+		verifhook.Point("taint.clear", target.Label.String())
+		if clearErr := e.taintCache.Clear(ctx, target.Label); clearErr != nil {
+			logger.Errorf("Failed to remove taint from target %s: %v", target.Label, clearErr)
+		}
 	}
 
 	return dag.CacheMiss, nil
